@@ -16,7 +16,7 @@ TIMEOUT = {'quick': 1500, 'thorough': 7200}
 MUST_HIT = ['Classify.input-accepted', 'Classify.input-rejected', 'Classify.build-ok',
             'Classify.build-rejected', 'ShadowLoader.compare', 'ShadowLoader.statements-unchanged',
             'CpuBudget.guarded', 'Route.input', 'Route.file_input', 'Route.filename_input',
-            'ShadowLoader.diagnostic-compared', 'Valid.named-inserts-with-different-column-lists']
+            'ShadowLoader.diagnostic-compared', 'Valid.named-inserts-with-different-column-lists', 'Mutant.alias-edit']
 MUST_REACH = ['xtuml/load.py:ModelLoader.t_error', 'xtuml/load.py:ModelLoader.p_error',
               'xtuml/load.py:deserialize_value', 'xtuml/load.py:ModelLoader.p_cardinality_many',
               'xtuml/load.py:ModelLoader.input', 'xtuml/load.py:ModelLoader.build_metamodel']
@@ -24,7 +24,7 @@ ANCHORS = MUST_REACH + ['xtuml/load.py:ModelLoader.p_cardinality_1']
 MIN_NONTRIVIAL = {'quick': 3000, 'thorough': 3000}
 RULE = ('texts: long repetitions of the units the lexer rules loop over (unterminated strings, ids, comments), arbitrary unicode strings (several alphabets incl. quotes, NUL, control and astral '
         'characters), random token sequences of the dialect, and 1-3 token edits (delete, duplicate, '
-        'swap, flip of a value\'s lexical class, truncate, case flip, insert) of valid files written from '
+        'swap, flip of a value\'s lexical class, truncate, case flip, insert, a name replaced by another name of the text in some letter case) of valid files written from '
         'random hostile schemas/populations; each text fed to a loader under a 5 s CPU budget, then '
         'built; sequences of 2-8 accepted/rejected inputs on one loader compared after every step with '
         'a shadow loader that received only the accepted texts. Non-trivial = the text is not accepted '
@@ -272,4 +272,6 @@ def run(ctx):
     single_texts(ctx, rng, ctx.share(24000 if ctx.tier == 'quick' else 2000000))
     sequences(ctx, rng, ctx.share(1200 if ctx.tier == 'quick' else 60000))
     for k, n in VALID_SHAPES.items():
+        ctx.hit(k, n)
+    for k, n in sqlmut.COUNTS.items():
         ctx.hit(k, n)
